@@ -210,6 +210,14 @@ def run_case(case):
                     o3 = net(x3, ctx).reshape(rows, f, case["mult"], 3)[:, : k + 1]
                     if not torch.equal(o1, o3):
                         res.fail("mog_not_factorised", site, "mixture parameters of features <= %d moved with x_{>%d}" % (k, k))
+                    # several leading batch dimensions (a grid of points [a, b, F]) are one density evaluated at a*b points
+                    if not res.failures and ctx is None and rows >= 2 and not case["bn"]:     # (BatchNorm1d reads [a, b, H] as channels: 2-D only)
+                        xg = torch.cat([x, x3], 0).reshape(2, rows, f)
+                        lg = net.log_prob(xg)
+                        l2 = torch.cat([net.log_prob(x), net.log_prob(x3)], 0).reshape(2, rows)
+                        if tuple(lg.shape) != (2, rows) or float((lg - l2).abs().max()) > 1e-10 * (1 + float(l2.abs().max())):
+                            res.fail("mog_not_factorised", site, "log_prob of a [2, %d, %d] grid differs from the same points as a flat batch "
+                                     "(shape %s, max diff %g)" % (rows, f, tuple(lg.shape), float((lg.reshape(-1) - l2.reshape(-1)).abs().max()) if lg.numel() == l2.numel() else float("nan")))
             res.nontrivial = f >= 2
             res.labels.append("mode:" + ("train" if train else "eval"))
             return res
